@@ -2,6 +2,7 @@ package main
 
 import (
 	"fmt"
+	"math"
 	"strings"
 
 	"github.com/zclconf/go-cty/cty"
@@ -242,7 +243,55 @@ func c11Placeholders(c *Ctx, r *rng.R, fn *stdFn, args []cty.Value, res cty.Valu
 	}
 }
 
+// corpus: calls that exposed defects before (internal panics, ill-formed results); they run first
+type call11 struct {
+	fn   string
+	args []cty.Value
+}
+
+func corpus11() []call11 {
+	inf, ninf := cty.NumberFloatVal(math.Inf(1)), cty.NumberFloatVal(math.Inf(-1))
+	n := cty.NumberIntVal
+	s := cty.StringVal
+	uLen2 := cty.UnknownVal(cty.List(cty.String)).Refine().CollectionLength(2).NewValue()
+	optObj := cty.ObjectWithOptionalAttrs(map[string]cty.Type{"a": cty.String, "b": cty.Number}, []string{"b"})
+	return []call11{
+		{"Indent", []cty.Value{n(-1), s("a\nb")}},
+		{"Int", []cty.Value{inf}}, {"Int", []cty.Value{ninf}}, {"Int", []cty.Value{cty.PositiveInfinity}},
+		{"Log", []cty.Value{n(-1), n(-3)}}, {"Log", []cty.Value{n(0), n(-1)}}, {"Log", []cty.Value{inf, inf}},
+		{"Pow", []cty.Value{n(-3), cty.MustParseNumberVal("0.1")}}, {"Pow", []cty.Value{n(-2), cty.NumberFloatVal(123456.789)}},
+		{"Modulo", []cty.Value{ninf, n(7)}}, {"Modulo", []cty.Value{inf, cty.NumberUIntVal(1 << 63)}}, {"Modulo", []cty.Value{n(5), inf}},
+		{"Range", []cty.Value{ninf, inf, inf}}, {"Range", []cty.Value{inf, cty.NumberFloatVal(-1.25), ninf}}, {"Range", []cty.Value{inf}},
+		{"SetUnion", []cty.Value{cty.NullVal(cty.DynamicPseudoType), cty.SetVal([]cty.Value{s("a")})}},
+		{"SetIntersection", []cty.Value{cty.DynamicVal, cty.SetVal([]cty.Value{n(1)})}},
+		{"SetSubtract", []cty.Value{cty.SetVal([]cty.Value{n(1)}), cty.DynamicVal}},
+		{"SetSymmetricDifference", []cty.Value{cty.DynamicVal, cty.SetValEmpty(cty.String)}},
+		{"Zipmap", []cty.Value{cty.ListVal([]cty.Value{s("a"), cty.NullVal(cty.String)}), cty.ListVal([]cty.Value{n(1), n(2)})}},
+		{"Merge", []cty.Value{cty.NullVal(cty.Object(map[string]cty.Type{"a": cty.Map(cty.Number)}))}},
+		{"Merge", []cty.Value{cty.EmptyObjectVal, cty.NullVal(cty.DynamicPseudoType), s("true")}},
+		{"Slice", []cty.Value{uLen2, n(0), n(1)}}, {"Slice", []cty.Value{uLen2, n(3), n(1)}},
+		{"Element", []cty.Value{uLen2, n(1)}}, {"Chunklist", []cty.Value{uLen2, n(1)}}, {"Length", []cty.Value{uLen2}},
+		{"FormatList", []cty.Value{s("%s"), uLen2}}, {"Flatten", []cty.Value{cty.TupleVal([]cty.Value{uLen2})}}, {"Join", []cty.Value{s(","), uLen2}},
+		{"Signum", []cty.Value{cty.NumberFloatVal(1.5)}}, {"Signum", []cty.Value{cty.MustParseNumberVal("1e30")}},
+		{"Substr", []cty.Value{s("hello"), n(-2), n(0)}}, {"Format", []cty.Value{s("%.0s|"), s("abc")}},
+		{"To(object)", []cty.Value{cty.UnknownVal(cty.DynamicPseudoType)}}, {"To(object)", []cty.Value{cty.UnknownVal(optObj.WithoutOptionalAttributesDeep())}},
+		{"Lookup", []cty.Value{cty.ObjectVal(map[string]cty.Value{"a": n(1)}), s("a").Mark("m"), n(0)}},
+	}
+}
+
 func genC11(c *Ctx, r *rng.R, i int) {
+	if cs := corpus11(); i < len(cs) {
+		if fn := stdByName[cs[i].fn]; fn != nil {
+			c11Check(c, fn, cs[i].args, "corpus")
+		} else {
+			for k := range stdFns { // conversion functions are registered under their target's name
+				if strings.HasPrefix(stdFns[k].Name, cs[i].fn) {
+					c11Check(c, &stdFns[k], cs[i].args, "corpus")
+				}
+			}
+		}
+		return
+	}
 	fn := &stdFns[i%len(stdFns)]
 	var args []cty.Value
 	class := "hinted"
@@ -298,6 +347,15 @@ func safeGen(fn *stdFn, r *rng.R) (args []cty.Value) {
 
 // ---------- C12 ----------
 func genC12(c *Ctx, r *rng.R, i int) {
+	if cs := corpus12(); i >= 1 && i <= len(cs) {
+		k := cs[i-1]
+		fn := stdByName[k.fn]
+		if rk, err := fn.F.Call(k.args); err == nil {
+			c.Count("oracle_evals")
+			c12Weak(c, fn, k.args, k.weak, rk)
+		}
+		return
+	}
 	if i == 0 { // corpus: the recorded finding KF-C12-1
 		fn := stdByName["SetProduct"]
 		l := cty.ListVal([]cty.Value{cty.True, cty.False})
@@ -377,6 +435,31 @@ func genC12(c *Ctx, r *rng.R, i int) {
 		if gv.Admits(wa[0], args[0]) == "" {
 			c12Weak(c, fn, args, wa, rk)
 		}
+	}
+}
+
+// corpus12: (arguments, weakened arguments) pairs that exposed unsound results before
+type call12 struct {
+	fn         string
+	args, weak []cty.Value
+}
+
+func corpus12() []call12 {
+	s, n := cty.StringVal, cty.NumberIntVal
+	ub := cty.UnknownVal(cty.Bool).RefineNotNull()
+	setset := func(x cty.Value) cty.Value { return cty.SetVal([]cty.Value{cty.SetVal([]cty.Value{x})}) }
+	return []call12{
+		{"Equal", []cty.Value{setset(cty.False), setset(cty.False)}, []cty.Value{setset(ub), setset(cty.False)}},
+		{"NotEqual", []cty.Value{setset(cty.True), setset(cty.True)}, []cty.Value{setset(cty.True), setset(ub)}},
+		{"ReverseList", []cty.Value{cty.SetVal([]cty.Value{s("false"), s("na\u00efve")})}, []cty.Value{cty.SetVal([]cty.Value{s("na\u00efve"), cty.UnknownVal(cty.String)})}},
+		{"FormatList", []cty.Value{s("%s-%s"), cty.ListVal([]cty.Value{s("a"), s("b")}), cty.ListVal([]cty.Value{s("x"), s("y")})},
+			[]cty.Value{s("%s-%s"), cty.ListVal([]cty.Value{cty.UnknownVal(cty.String), s("b")}), cty.ListVal([]cty.Value{s("x"), s("y")})}},
+		{"FormatList", []cty.Value{s("%d%s"), cty.ListVal([]cty.Value{n(1), n(2), n(3)}), cty.ListVal([]cty.Value{s("x"), s("y"), s("z")})},
+			[]cty.Value{s("%d%s"), cty.ListVal([]cty.Value{n(1), cty.UnknownVal(cty.Number), n(3)}), cty.ListVal([]cty.Value{s("x"), s("y"), s("z")})}},
+		{"SetHasElement", []cty.Value{cty.SetVal([]cty.Value{cty.TupleVal([]cty.Value{n(1), n(2)})}), cty.TupleVal([]cty.Value{n(1), n(2)})},
+			[]cty.Value{cty.SetVal([]cty.Value{cty.TupleVal([]cty.Value{n(1), n(2)})}), cty.TupleVal([]cty.Value{cty.UnknownVal(cty.Number), n(2)})}},
+		{"Contains", []cty.Value{cty.SetVal([]cty.Value{cty.ListVal([]cty.Value{n(1)})}), cty.ListVal([]cty.Value{n(1)})},
+			[]cty.Value{cty.SetVal([]cty.Value{cty.ListVal([]cty.Value{n(1)})}), cty.ListVal([]cty.Value{cty.UnknownVal(cty.Number)})}},
 	}
 }
 
